@@ -19,7 +19,8 @@
 (***************************************************************************)
 EXTENDS Naturals, FiniteSets, Sequences, TLC
 
-CONSTANTS Datasets, Deviations
+CONSTANTS Datasets, Deviations,
+          Compatible   \* pairs <<f, t>>: data set t has the feature layout and labels of f, so a chain fitted on f transforms t
 
 VARIABLES fitState, tfState, last
 vars == <<fitState, tfState, last>>
@@ -42,14 +43,14 @@ PFit(d) ==
 
 \* Preprocessor.transform: only the unseen bookkeeping is written
 PTransform(d) ==
-    /\ Fitted
+    /\ Fitted /\ <<fitState["scaler"], d>> \in Compatible
     /\ tfState' = [s \in Stages |-> IF s \in Bookkeeping THEN d ELSE tfState[s]]
     /\ UNCHANGED fitState
     /\ last' = [kind |-> "transform", arg |-> d]
 
 \* a converter whose fit-time and transform-time coordinates are one aliased object
 Dev_TransformOverwritesFitCoords(d) ==
-    /\ "TransformOverwritesFitCoords" \in Deviations /\ Fitted
+    /\ "TransformOverwritesFitCoords" \in Deviations /\ Fitted /\ <<fitState["scaler"], d>> \in Compatible
     /\ tfState' = [s \in Stages |-> IF s \in Bookkeeping THEN d ELSE tfState[s]]
     /\ fitState' = [fitState EXCEPT !["preconverter"] = d, !["postconverter"] = d]
     /\ last' = [kind |-> "transform", arg |-> d]
